@@ -333,6 +333,28 @@ func (w *lawWriter) valueLaws(s *Struct) {
 	}
 
 	if s.expValue() {
+		// field set of every view = the fields of the SPEC that gombok is documented to keep
+		// (everything except `_`-prefixed fields and embedded EMPTY structs), in declaration order
+		{
+			var keptNames, twinNames, twinAnon []string
+			for _, f := range app {
+				keptNames = append(keptNames, fmt.Sprintf("%q", f.Name))
+			}
+			for _, f := range s.Fields {
+				twinNames = append(twinNames, fmt.Sprintf("%q", f.MutableName()))
+				twinAnon = append(twinAnon, fmt.Sprint(f.Embedded))
+			}
+			w.f("\t\tif it == 0 {\n")
+			w.f("\t\t\tkept := []string{%s}\n", strings.Join(keptNames, ", "))
+			if s.expTuple() {
+				w.f("\t\t\tp.arity(m, \"astuple\", reflect.TypeOf(x.AsTuple()).NumField(), kept)\n")
+				w.f("\t\t\tp.arity(m, \"fromtuple\", reflect.TypeOf(x.Builder().FromTuple).In(0).NumField(), kept)\n")
+			}
+			w.f("\t\t\tp.arity(m, \"unapply\", reflect.TypeOf(x.Unapply).NumOut(), kept)\n")
+			w.f("\t\t\tp.arity(m, \"apply\", reflect.TypeOf(x.Builder().Apply).NumIn(), kept)\n")
+			w.f("\t\t\tp.twin(m, reflect.TypeOf(x.AsMutable()), []string{%s}, []bool{%s})\n", strings.Join(twinNames, ", "), strings.Join(twinAnon, ", "))
+			w.f("\t\t}\n")
+		}
 		// AsTuple / Unapply
 		if s.expTuple() {
 			var comps, tys []string
@@ -357,7 +379,7 @@ func (w *lawWriter) valueLaws(s *Struct) {
 		{
 			var comps, inits []string
 			for _, f := range app {
-				n := f.PubName()
+				n := f.MutableName()
 				comps = append(comps, "mu."+n)
 				inits = append(inits, fmt.Sprintf("%s: y.%s", n, f.Name))
 			}
